@@ -79,6 +79,10 @@ class _SafeVisitor(ast.NodeVisitor):
             raise ExpressionError("Only simple calls to abs/min/max/round are allowed.")
         for arg in node.args:
             self.visit(arg)
+        # Keyword arguments are part of the expression too: ``keyword`` nodes are not
+        # on the whitelist, so ``f(k=<anything>)`` is rejected like any other syntax.
+        for keyword in node.keywords:
+            self.visit(keyword)
 
     def generic_visit(self, node: ast.AST) -> Any:  # pragma: no cover - trivial
         if type(node) not in self._ALLOWED_NODES:
@@ -102,6 +106,9 @@ class ExpressionEvaluator:
         }
         if allowed_funcs:
             env.update(allowed_funcs)
+        # Pin builtins: without this key eval() injects the real builtins module
+        # into the globals, making __import__ & co. reachable by name.
+        env["__builtins__"] = {}  # type: ignore[assignment]
         self.env = env
 
     def compile(self, expr: str, allowed_names: set[str]) -> Callable[..., Any]:
